@@ -23,12 +23,18 @@ type Lambda struct {
 	Forms   List
 	Closure *Scope
 	Macro   bool
+	// inline is true for a lambda expression in the function position of a
+	// form. It is called where it appears so the scope of the call is its
+	// closure.
+	inline bool
 }
 
 // Call the the function with the arguments provided.
 func (lam *Lambda) Call(s *Scope, args List, depth int) (result Object) {
 	ss := s.NewScope()
-	ss.call = !lam.Macro // a macro expansion is evaluated in ss by backquote and needs the blocks of the caller
+	// A macro expansion is evaluated in ss by backquote and needs the blocks
+	// of the caller. An inline lambda is called where it is defined.
+	ss.call = !lam.Macro && !lam.inline
 	if lam.Closure != nil {
 		ss.parents = append(ss.parents, lam.Closure)
 		ss.Macro = lam.Closure.Macro
